@@ -35,7 +35,7 @@ from nvlib import extract as X
 from nvlib.check import Prop
 from props import c14_extract as T
 
-N = 4096  # MESSAGE_BUF_SIZE; only used to aim the generators (the model uses the regenerated constant)
+N = 4096  # MESSAGE_BUF_SIZE: re-read from src/comm.h on every run (gen_extra); aims the generators and boundary cases
 
 
 def hx(b):
@@ -135,10 +135,17 @@ class C14(Prop):
                    "builds with FLUSH_OUTPUT_IMMEDIATELY",
                    "Windows IOCP runtime (only the Linux epoll runtime is run)"]
 
-    def gen_extra(self, ctx, bdir):
+    def _gen_extra(self, ctx, bdir):
         """chunk rule, index updates, ring-full tests, CR/LF bytes and the errno classification of flush_message,
         translated from the text of src/comm.c (props/c14_extract.py); TieBroken when a site cannot be located"""
+        global N
         src = open(os.path.join(E.REPO, "src/comm.c"), errors="replace").read()
+        try:
+            n = X.probe_values(bdir, [("v", "MESSAGE_BUF_SIZE")], self.const_headers, self.const_prelude)["v"]
+            if 64 <= n <= 1 << 20:
+                N = n       # boundary cases and generators follow a changed buffer size
+        except X.TieBroken:
+            pass
 
         def errno_value(name):
             try:
@@ -154,6 +161,23 @@ class C14(Prop):
             raise X.TieBroken("guard:config.PACKAGE", "PACKAGE / VERSION not found in the generated config.h")
         return T.extract(src, errno_value, (pk.group(1), ve.group(1))) + "\n\n-- control-flow shapes checked against the source on this run (props/c14_extract.py SHAPES):\n-- " \
             + "\n-- ".join(sites)
+
+    def gen_extra(self, ctx, bdir):
+        """as _gen_extra; when a site has left the translatable shape (tie broken) the plain constants are STILL regenerated
+        (with the last good translation of the expressions), so that the search that follows judges the changed tree with
+        its own buffer size / errno values and not with stale ones"""
+        try:
+            return self._gen_extra(ctx, bdir)
+        except X.TieBroken:
+            path = os.path.join(E.LEAN, "NV/Gen/C14.lean")
+            try:
+                old = open(path).read()
+                a = old.index("set_option linter.unusedVariables false")
+                b = old.rindex("\nend NV.Gen.C14")
+                X.gen_consts(self.id, bdir, self.consts, self.const_headers, self.const_prelude, old[a:b].rstrip("\n"))
+            except (OSError, ValueError, X.TieBroken):
+                pass
+            raise
 
     def prepare(self, ctx):
         self.exe = E.compile_harness("c14", [os.path.join(E.VERIF, "harness/c14/c14.c")], exclude_objs=("comm.c.o",))
@@ -200,8 +224,8 @@ class C14(Prop):
         mk("all-lf-odd-length", [w(b"a"), "sendres W", w(LF * (N // 2 + 5)), "dump"])
         # long message, partial sends of many sizes
         big = b"".join(filler(37, i) + LF for i in range(3 * N // 38 + 1))[:3 * N]
-        mk("3N-partials", ["sendres 1,2,3,100,4095,1,W,5000,7,I,4096", w(big), "dump", "cycle", "wready"])
-        mk("3N-partials-v", ["sendres 1,2,3,100,4095,1,W,5000,7,I,4096", vw(big), "dump", "cycle", "wready"])
+        mk("3N-partials", ["sendres 1,2,3,100,%d,1,W,%d,7,I,%d" % (N - 1, N + 904, N), w(big), "dump", "cycle", "wready"])
+        mk("3N-partials-v", ["sendres 1,2,3,100,%d,1,W,%d,7,I,%d" % (N - 1, N + 904, N), vw(big), "dump", "cycle", "wready"])
         mk("3N-one-by-one", ["sendres " + ",".join(["1"] * 40) + ",W", w(big), "dump"])
         # ring filled, partial send ends exactly at / one before / one after the wrap point
         for r in (1, 7, N // 2, N - 1):
@@ -215,9 +239,9 @@ class C14(Prop):
         mk("wrap-then-refill", [w(filler(100)), "flush", w(filler(N, 3)), "sendres %d,W" % (N - 100), "flush",
                                 "sendres W", w(filler(N, 9)), "dump", "sendres 50,I,50,W", "cycle", "dump", "cycle", "dump"])
         # all-W: tail dropped
-        mk("allW-5000", ["sendres W", w(filler(5000)), "dump", "sendres W", "flush", "wready", "dump"])
+        mk("allW-5000", ["sendres W", w(filler(N + 904)), "dump", "sendres W", "flush", "wready", "dump"])
         mk("allW-lfpair", ["sendres W", w(filler(N - 1) + LF + filler(10)), "dump"])
-        mk("allW-then-more", ["sendres W,W,W", w(filler(5000)), w(b"more" + LF), w(LF), "dump", "wready",
+        mk("allW-then-more", ["sendres W,W,W", w(filler(N + 904)), w(b"more" + LF), w(LF), "dump", "wready",
                               w(b"after" + LF), "dump"])
         # W then later drain
         mk("W-then-drain", [w(b"hello" + LF), "sendres W", "flush", "dump", "wready", "dump", "wready"])
@@ -238,7 +262,7 @@ class C14(Prop):
         # after close
         mk("write-after-close", [w(b"abc" + LF), "close", w(b"def" + LF), vw(b"ghi"), "cycle", "wready", "close"])
         mk("close-partial", [w(filler(200)), "sendres 10,W", "close"])
-        mk("close-wrapped", [w(filler(3000)), "flush", w(filler(3000, 11)), "sendres 500,600", "close"])
+        mk("close-wrapped", [w(filler(3 * N // 4)), "flush", w(filler(3 * N // 4, 11)), "sendres 500,600", "close"])
         # peer events
         mk("peerfin-pending", [w(b"abc" + LF), "peerfin", w(b"x")])
         mk("peerfin-idle", ["peerfin"])
